@@ -158,13 +158,17 @@ impl App {
         }
 
         let script = self.script.clone();
+        if let (Some(p), true) = (script.prompt, script.prompt_first) {
+            cli.set_prompt(PROMPTS[p]);
+            self.handler_set_prompt = Some(p);
+        }
         let res = run_calls(cli.writer(), &script.calls, &self.sink, &mut self.handler_text);
         if let Err(e) = res {
             self.handler_calls_ok = false;
             self.log.push(d);
             return Err(ProcessError::WriteError(e));
         }
-        if let Some(p) = script.prompt {
+        if let (Some(p), false) = (script.prompt, script.prompt_first) {
             cli.set_prompt(PROMPTS[p]);
             self.handler_set_prompt = Some(p);
         }
@@ -223,13 +227,17 @@ impl App {
 
     fn finish_typed(&mut self, cli: &mut CliHandle<'_, Sink, SimErr>, d: Dispatch) -> Result<(), SimErr> {
         let script = self.script.clone();
+        if let (Some(p), true) = (script.prompt, script.prompt_first) {
+            cli.set_prompt(PROMPTS[p]);
+            self.handler_set_prompt = Some(p);
+        }
         let res = run_calls(cli.writer(), &script.calls, &self.sink, &mut self.handler_text);
         if let Err(e) = res {
             self.handler_calls_ok = false;
             self.log.push(d);
             return Err(e);
         }
-        if let Some(p) = script.prompt {
+        if let (Some(p), false) = (script.prompt, script.prompt_first) {
             cli.set_prompt(PROMPTS[p]);
             self.handler_set_prompt = Some(p);
         }
@@ -283,6 +291,12 @@ pub fn run_calls(
                 w.write_list_element(name, desc, crate::trace::LIST_ELEM_WIDTH)?;
             }
             WKind::Title => w.write_title(t)?,
+            WKind::UfmtArgs => ufmt::uwrite!(w, "[{}]{}{}", t, 7u8, "")?,
+            WKind::FmtArgs => {
+                if write!(w, "[{}]{}{}", t, 7u8, "").is_err() {
+                    return Err(fmt_error(sink));
+                }
+            }
         }
         text.push_str(&c.spec_text());
     }
